@@ -834,8 +834,9 @@ fn passes(ctx: &Ctx) -> Vec<Pass> {
     vec![
         Pass { mode: Mode::Strict, env: Env::Zero, depth_small: if q { 10 } else { 16 }, depth_big: 0 },
         Pass { mode: Mode::Baseline, env: Env::Zero, depth_small: if q { 8 } else { 10 }, depth_big: if q { 6 } else { 8 } },
-        Pass { mode: Mode::Tolerant, env: Env::Zero, depth_small: if q { 10 } else { 15 }, depth_big: if q { 9 } else { 11 } },
         Pass { mode: Mode::Tolerant, env: Env::Table, depth_small: if q { 8 } else { 12 }, depth_big: if q { 6 } else { 8 } },
+        // the main pass last (a deadline then cuts only its most expensive seeds): cheap seeds first
+        Pass { mode: Mode::Tolerant, env: Env::Zero, depth_small: if q { 10 } else { 15 }, depth_big: if q { 9 } else { 11 } },
     ]
 }
 
@@ -854,7 +855,7 @@ impl Check for C34 {
             "tolerant passes accept that a page released while no trunk has room becomes trunk structure and is counted (known findings KF-C34-01/02); everything else is checked exactly",
             "seed construction histories (up to 8185 calls) evaluate the drain oracle only next to trunk boundaries and at the end",
         ];
-        s.cap_quick_s = 90;
+        s.cap_quick_s = 75;
         s.cap_thorough_s = 1100;
         vec![s]
     }
@@ -864,7 +865,9 @@ impl Check for C34 {
         if envp.is_none() {
             rep.note("could not obtain real table-file pages; table env uses zero pages");
         }
-        let defs = seed_defs();
+        let mut defs = seed_defs();
+        // seeds with few free pages first (their drain oracle is cheap)
+        defs.sort_by_key(|d| d.releases.saturating_sub(d.then_alloc) > 16);
         let mut ex = Explorer { ctx, ev: Ev::default(), seen: Bits::new(64) };
         for k in ["release_creates_first_trunk", "release_creates_next_trunk_on_full", "allocate_empties_trunk_and_drops_it", "allocate_skips_empty_head_trunk", "allocate_returns_page", "allocate_returns_none", "release_appends_entry", "allocate_with_head0_and_stale_count"] {
             rep.expect_nonzero(k);
